@@ -111,7 +111,7 @@ def rule_s2(ctx):
         if ser is None:
             raise AnalysisError('undecidable shape: %s does not obtain a (serialise, deserialise) pair' % fname)
         rets = [r for r in flow.returns_of(fn) if r.value is not None]
-        main = [r for r in rets if not any(True for t, b in flow.guards_of(r, fn))]
+        main = [r for r in rets if not flow.enclosing_guards(r, fn)]
         if len(main) != 1:
             raise AnalysisError('undecidable shape: %s has %d unconditional returns' % (fname, len(main)))
         v = main[0].value
